@@ -32,6 +32,7 @@ def check_c08(prop, tier, seed):
         specs = [dict(kind='clusters2', n_dim=2, n=94, seed=s + 1, cls='Ellipsoid', n_split=3, roundtrip=True),
                  dict(kind='three', n_dim=3, n=120, seed=s + 2, cls='UnitCubeEllipsoidMixture', n_split=2),
                  dict(kind='corner', n_dim=2, n=80, seed=s + 3, cls='Ellipsoid', n_split=2),
+                 dict(kind='blob', n_dim=2, n=160, seed=s + 11, cls='Ellipsoid', n_split=5, npm=4, rounds=5),     # triple overlaps
                  dict(kind='banana', n_dim=2, n=120, seed=s + 4, cls='Ellipsoid', n_split=4, unit=False),
                  dict(kind='blob', n_dim=3, n=100, seed=s + 5, cls='Ellipsoid', n_split=3, roundtrip=True),
                  dict(kind='faces', n_dim=3, n=90, seed=s + 6, cls='UnitCubeEllipsoidMixture', n_split=3),
@@ -83,6 +84,7 @@ def check_c08(prop, tier, seed):
         for r in log:
             kinds[r['kind']] = kinds.get(r['kind'], 0) + 1
         rep.coverage.update(rounds=kinds, proposals_checked=sum(len(r.get('m', [])) for r in log),
+                            proposals_in_three_or_more_members=sum(sum(1 for x in r.get('m', []) if x >= 3) for r in log),
                             overlapping_proposals=sum(r.get('n_overlap', 0) for r in log))
         r0 = [r for r in log if r['kind'] == 'union' and r.get('n_overlap', 0) > 0][:1] or log[:1]
         rep.sample({k: (v if not isinstance(v, list) else v[:10]) for k, v in r0[0].items()})
